@@ -1434,15 +1434,15 @@ def compile_pattern(compiler, pattern):
             # As in Python, where `**_` is a syntax error.
             compiler._syntax_error(rest, "`#** _` is not allowed in a mapping pattern")
         keys, values = zip(*kvs) if kvs else ([], [])
-        # Call `scope.assign` for the assignment to `rest`.
-        return compiler.scope.assign(
-            asty.MatchMapping(
-                value,
-                keys=[compiler.compile(key).expr for key in keys],
-                patterns=[compile_pattern(compiler, v) for v in values],
-                rest=mangle(rest) if rest else None,
-            )
+        node = asty.MatchMapping(
+            value,
+            keys=[compiler.compile(key).expr for key in keys],
+            patterns=[compile_pattern(compiler, v) for v in values],
+            rest=mangle(rest) if rest else None,
         )
+        # Call `scope.assign` for the assignment to `rest`, if there
+        # is one.
+        return compiler.scope.assign(node) if rest else node
     elif isinstance(value, Expression):
         head, args, kwargs = value
         keywords, values = zip(*kwargs) if kwargs else ([], [])
